@@ -114,6 +114,7 @@ func (c *stickyCleanup) ReleaseLock() {
 	if c == nil || c.entry == nil || c.doneMu {
 		return
 	}
+	verifAt("sticky.release", c.entry)
 	c.entry.lock.Unlock()
 	c.doneMu = true
 }
@@ -233,11 +234,13 @@ func (h *HttpServer) installStickyOnRequestNoCtx(r *http.Request, auth *AuthCont
 	if entry == nil {
 		return cleanup, &SessionLostError{Reason: sessionLostNotFound}
 	}
+	verifAt("sticky.resume.got", entry, sid)
 
 	// Acquire the per-session lock for the duration of dispatch. Released
 	// in cleanup.ReleaseLock. Same-session concurrent calls serialize
 	// here; different-session calls run in parallel.
 	entry.lock.Lock()
+	verifAt("sticky.resume.locked", entry, sid)
 	sink.installResumed(entry, sid)
 	cleanup.entry = entry
 	_ = _expiresAt
@@ -321,8 +324,11 @@ func (h *HttpServer) handleStickyDelete(w http.ResponseWriter, r *http.Request) 
 	// Acquire the per-session lock so we serialize with any in-flight
 	// call on the same session — matches the documented concurrency
 	// contract.
+	verifAt("sticky.delete.got", entry, sid)
 	entry.lock.Lock()
+	verifAt("sticky.delete.locked", entry, sid)
 	h.stickyRegistry.close(sid)
+	verifAt("sticky.delete.closed", entry, sid)
 	entry.lock.Unlock()
 	w.Header().Set(stickySessionCloseHeader, "true")
 	w.WriteHeader(http.StatusNoContent)
